@@ -19,7 +19,7 @@ def register(ix):
     # ------------------------------------------------------------------ Run.__init__
     ix.add_class(ClassSpec("Run0", AD, fields={}, alias_of="Run"))
     ix.add(Contract(
-        AD, "Run.__init__", props=["C05", "C01"],
+        AD, "Run.__init__", props=["C05", "C01"], inline=True,
         cases=[
             Contract(AD, "Run.__init__", name="Run.__init__[no method name]",
                      params={"self": "Self[Run0]", "el": "Obj", "run": SENT},
